@@ -37,6 +37,7 @@ class QCircuitEnhanced(QCircuit):
         self.ancilla_lst = set()
         self.free_ancilla_lst = set()
         self.marked_ancillas = set()
+        self.kept_ancillas = set()
 
     def map_qubit(self, name: Union[str, Symbol], index: int, promote=False):
         """Map a name to a qubit
@@ -109,8 +110,13 @@ class QCircuitEnhanced(QCircuit):
 
     def mark_ancilla(self, w):
         """Mark an ancilla for uncomputing"""
-        if w in self.ancilla_lst:
+        if w in self.ancilla_lst and w not in self.kept_ancillas:
             self.marked_ancillas.add(w)
+
+    def keep_ancillas(self):
+        """Keep the ancillas in use as they are until uncompute_all: they are no longer marked"""
+        self.kept_ancillas |= self.ancilla_lst - self.free_ancilla_lst
+        self.marked_ancillas = set()
 
     def uncompute_all(self, keep: List[Union[Symbol, int]] = []):
         """Uncompute the whole circuit expect for the keep (symbols or qubit)"""
